@@ -32,51 +32,67 @@ def r1(run, db):
     m = model(db)
     cl = m.guard_cleanup()
     run.saw(len(cl.blocks), cl)
-    ss = set_status_calls(cl)
-    stopping = [c for c, v in ss if v == "Stopping"]
-    stopped = [c for c, v in ss if v == "Stopped"]
-    term = cl.calls_to("ActorCell::terminate")
-    notify = cl.calls_to("ActorCell::notify_supervisor")
-    unlink = cl.calls_to("ActorCell::unlink")
+    armed_name, _notify = guard_flags(db)
+    ic = inlined_calls(db, cl)
+    def role(pred):
+        return [(o, c) for o, c, ch in ic if pred(c)]
+    def consts(c):
+        v = c.fn.value_consts(c.args[1])
+        return v[0].split("::")[-1] if v else None
+    stopping = role(lambda c: c.is_("ActorCell::set_status") and consts(c) == "Stopping")
+    stopped = role(lambda c: c.is_("ActorCell::set_status") and consts(c) == "Stopped")
+    term = role(lambda c: c.is_("ActorCell::terminate"))
+    notify = role(lambda c: c.is_("ActorCell::notify_supervisor"))
+    unlink = role(lambda c: c.is_("ActorCell::unlink"))
+    tgs = role(lambda c: c.is_("ActorCell::try_get_supervisor"))
     run.anchor("cleanup set_status(Stopping)", len(stopping), 1, cl.where())
     run.anchor("cleanup set_status(Stopped)", len(stopped), 1, cl.where())
     run.anchor("cleanup terminate()", len(term), 1, cl.where())
     run.anchor("cleanup notify_supervisor()", len(notify), 1, cl.where())
     run.anchor("cleanup unlink()", len(unlink), 1, cl.where())
+    run.anchor("cleanup try_get_supervisor()", len(tgs), 1, cl.where())
     if not (stopping and stopped and term):
         return
-    a, t, z = stopping[0].site, term[0].site, stopped[0].site
-    # armed gate
+    a, t, z = stopping[0][0], term[0][0], stopped[0][0]
     armed = None
     for site, sw in cl.switches():
         if sw["dty"] == "bool":
             roots = cl.origins(sw["discr"])
-            if any(any(e.endswith(":armed") for e in r.get("proj", [])) for r in roots):
+            if any(any(e.endswith(":" + armed_name) for e in r.get("proj", [])) for r in roots):
                 armed = site
-    run.check(armed is not None, "armed-gate", "cleanup starts with a test of the guard's `armed` flag", "no switch on the `armed` field found in cleanup", cl.where())
-    if armed is not None:
-        te = cl.edge_of(armed, "true")
+    run.check(armed is not None, "armed-gate", "cleanup starts with a test of the guard's `%s` flag" % armed_name, "no switch on the armed flag found in cleanup", cl.where())
+    te = cl.edge_of(armed, "true") if armed is not None else None
+    if te:
         for nm, s in (("set_status(Stopping)", a), ("terminate()", t), ("set_status(Stopped)", z)):
-            run.check(te and all_paths_from_edge_pass(cl, te, [s]), "armed->" + nm, "every path from the armed edge to the end of cleanup passes through %s" % nm,
+            run.check(all_paths_from_edge_pass(cl, te, [s]), "armed->" + nm, "every path from the armed edge to the end of cleanup passes through %s" % nm,
                       "a path through cleanup skips %s (e.g. on one event/no-event branch): the subtree or the final status is left behind" % nm, cl.where())
-    run.check(cl.dominates(a, t) and cl.dominates(t, z), "order", "set_status(Stopping) dominates terminate() dominates set_status(Stopped)",
+    run.check(a != t and t != z and cl.dominates(a, t) and cl.dominates(t, z), "order", "set_status(Stopping) dominates terminate() dominates set_status(Stopped)",
               "cleanup order broken: Stopping/terminate/Stopped are not in dominance order", cl.where())
+    def helper_order(first, second):
+        """both roles resolve to the same outer site (same helper): check their order inside the helper"""
+        o1, c1 = first
+        o2, c2 = second
+        if o1 != o2:
+            return cl.reaches_after(o1, o2) and not cl.reaches_after(o2, o1)
+        if c1.fn.id == c2.fn.id:
+            return c1.fn.reaches_after(c1.site, c2.site) and not c1.fn.reaches_after(c2.site, c1.site)
+        return False
     for nm, cs in (("notify_supervisor", notify), ("unlink", unlink)):
-        for c in cs:
-            run.check(cl.dominates(t, c.site) and not cl.reaches_after(z, c.site) and cl.reaches_after(c.site, z), "between:" + nm,
-                      "%s happens after terminate() and before set_status(Stopped)" % nm, "%s is not between terminate() and set_status(Stopped)" % nm, c.where())
-    tgs = cl.calls_to("ActorCell::try_get_supervisor")
-    run.anchor("cleanup try_get_supervisor()", len(tgs), 1, cl.where())
-    if tgs and unlink and armed is not None:
-        te = cl.edge_of(armed, "true")
-        run.check(te and all_paths_from_edge_pass(cl, te, [tgs[0].site]), "armed->try_get_supervisor", "every armed cleanup looks up the current supervisor (with or without an exit event)",
+        for o, c in cs:
+            okb = (cl.dominates(t, o) and o != t) and not cl.reaches_after(z, o) and (cl.reaches_after(o, z) or o == z and helper_order((o, c), stopped[0]))
+            run.check(okb, "between:" + nm, "%s happens after terminate() and before set_status(Stopped)" % nm, "%s is not between terminate() and set_status(Stopped)" % nm, c.where())
+    if tgs and unlink and te:
+        run.check(all_paths_from_edge_pass(cl, te, [tgs[0][0]]), "armed->try_get_supervisor", "every armed cleanup looks up the current supervisor (with or without an exit event)",
                   "a cleanup path (e.g. a failed start, which has no event) never looks up / unlinks from the supervisor: the dead actor stays in its supervisor's child set", cl.where())
-        se = nested_variant_edge(cl, tgs[0], ["Some"])
-        run.check(se is not None and all_paths_from_edge_pass(cl, se, [unlink[0].site]), "supervisor->unlink", "whenever a supervisor is set, cleanup unlinks from it", "cleanup can skip unlink although a supervisor is set", unlink[0].where())
-        okarg = any(r["k"] == "call" and r["call"].bb == tgs[0].bb for r in cl.origins(unlink[0].args[1]))
-        run.check(okarg, "unlink-current", "unlink is given the supervisor just read", None, unlink[0].where())
+        tc, uc = tgs[0][1], unlink[0][1]
+        hf = tc.fn
+        se = nested_variant_edge(hf, tc, ["Some"])
+        same = uc.fn.id == hf.id
+        run.check(same and se is not None and all_paths_from_edge_pass(hf, se, [uc.site]), "supervisor->unlink", "whenever a supervisor is set, cleanup unlinks from it", "cleanup can skip unlink although a supervisor is set", uc.where())
+        okarg = same and any(r["k"] == "call" and r["call"].bb == tc.bb for r in hf.origins(uc.args[1]))
+        run.check(okarg, "unlink-current", "unlink is given the supervisor just read", None, uc.where())
     if notify and unlink:
-        run.check(not cl.reaches_after(unlink[0].site, notify[0].site), "notify-before-unlink", "the supervisor is notified before the child unlinks from it",
+        run.check(helper_order(notify[0], unlink[0]), "notify-before-unlink", "the supervisor is notified before the child unlinks from it",
                   "unlink can precede the supervisor notification (the event would find no supervisor)", cl.where())
     # Drop calls cleanup unconditionally; finish calls cleanup
     for nm, f in (("drop", m.guard_drop()), ("finish", m.guard_finish())):
